@@ -95,9 +95,9 @@ def vertex_to_face_operator(mesh : SurfaceMesh) -> sp.csc_matrix:
         mouette.attributes.interpolate_vertices_to_faces
     """
     n,m = len(mesh.vertices), len(mesh.faces)
-    mat = sp.lil_matrix((m,n))
+    mat = sp.lil_matrix((n,m))
     for iT,T in enumerate(mesh.faces):
         aT = 1/len(T)
         for V in T:
-            mat[iT,V] = aT
+            mat[V,iT] = aT
     return mat.tocsc()
